@@ -27,6 +27,16 @@ fam_prof = sc.make_prof(fams=["lin", "sinlin", "hashed", "rosen"], nmax=4, mmax=
                         restarts=False, opts=False, noise_flag=False, diag=0.0, zero_resid=0.0, npt_extra=False)
 
 
+def has_bounds(case):
+    return case.get("lower") is not None or case.get("upper") is not None
+
+
+def box_spec(case):
+    n = case["n"]
+    return {"kind": "box", "l": list(case["lower"]) if case.get("lower") is not None else [-1e20] * n,
+            "u": list(case["upper"]) if case.get("upper") is not None else [1e20] * n}
+
+
 @st.composite
 def cases(draw):
     base = draw(sc.scenarios(fam_prof))
@@ -48,6 +58,20 @@ def cases(draw):
         base["lower"] = [sc.dec(z[i] - w[i]) for i in range(n)]
         base["upper"] = [sc.dec(z[i] + w2[i]) for i in range(n)]
         tags.append("extra-bounds")
+        sides = draw(st.sampled_from(["both", "both", "lower", "upper", "mixed"]))
+        if sides == "lower":
+            base["upper"] = None                      # bounds=(lower, None): documented one-sided form
+        elif sides == "upper":
+            base["lower"] = None
+        elif sides == "mixed":
+            for i in range(n):
+                sd = draw(st.sampled_from(["both", "l", "u"]))
+                if sd == "l":
+                    base["upper"][i] = 1e20           # the documented 'no bound' sentinel
+                elif sd == "u":
+                    base["lower"][i] = -1e20
+        if sides != "both":
+            tags.append("bounds:" + sides)
     else:
         base["lower"] = base["upper"] = None
     base["scaling"] = False
@@ -66,7 +90,7 @@ def cases(draw):
         x0 = zz + dirn * mag * 0.5
     else:
         # walk from z along dirn to the boundary of the intersection (bisection on the harness's own distance function)
-        specs = list(base["proj"]) + ([{"kind": "box", "l": base["lower"], "u": base["upper"]}] if base["lower"] else [])
+        specs = list(base["proj"]) + ([box_spec(base)] if has_bounds(base) else [])
         lo_t, hi_t = 0.0, 100.0 * mag
         for _ in range(80):
             mid = 0.5 * (lo_t + hi_t)
@@ -125,9 +149,9 @@ def run(case):
     log = sc.DykstraLog()
     o = sc.run_solve(case, dykstra_log=log)
     specs = list(case["proj"])
-    has_bounds = case.get("lower") is not None
+    has_bounds = globals()["has_bounds"](case)
     if has_bounds:
-        specs_all = specs + [{"kind": "box", "l": case["lower"], "u": case["upper"]}]
+        specs_all = specs + [box_spec(case)]
     else:
         specs_all = specs
     p_doc = len(case["proj"]) + 1
